@@ -12,18 +12,24 @@ const repoPrefix = "github.com/gopcua/opcua/"
 func stackOfPanic() string { return string(debug.Stack()) }
 
 // topRepoFunc extracts, from a goroutine stack dump (runtime/debug.Stack or the
-// crash output of a dead process), the innermost function that belongs to the
+// crash output of a dead process), the innermost function of the FIRST goroutine
+// block (the recovering / panicking / faulting goroutine) that belongs to the
 // repository under test — the "top in-repo function" of a signature. Frames of
 // the harness itself (package main) and of the runtime are skipped.
 func topRepoFunc(stack string) string {
 	sc := bufio.NewScanner(strings.NewReader(stack))
 	sc.Buffer(make([]byte, 1<<16), 1<<22)
-	seenPanic := false
-	first := ""
+	started := false
 	for sc.Scan() {
 		line := sc.Text()
-		if strings.HasPrefix(line, "panic(") || strings.HasPrefix(line, "runtime.panic") || strings.HasPrefix(line, "runtime.goPanic") || strings.HasPrefix(line, "runtime.sigpanic") {
-			seenPanic = true
+		if strings.HasPrefix(line, "goroutine ") {
+			if started {
+				break
+			}
+			started = true
+			continue
+		}
+		if !started {
 			continue
 		}
 		if strings.HasPrefix(line, repoPrefix) {
@@ -31,22 +37,8 @@ func topRepoFunc(stack string) string {
 			if i := strings.LastIndex(fn, "("); i > 0 {
 				fn = fn[:i]
 			}
-			fn = strings.TrimPrefix(fn, repoPrefix)
-			// strip closure suffixes like .func1
-			if first == "" {
-				first = fn
-			}
-			if seenPanic {
-				return fn
-			}
+			return strings.TrimPrefix(fn, repoPrefix)
 		}
-		if strings.HasPrefix(line, "goroutine ") && seenPanic {
-			// next goroutine: the panicking one had no repo frame
-			break
-		}
-	}
-	if first != "" {
-		return first
 	}
 	return "?"
 }
